@@ -6,7 +6,7 @@
    spec_case : what the implementation did satisfies the specification, formulated
                independently of the model (layout as a sum, provenance from the
                generator's own knowledge, last-OPT by a forward fold). *)
-From Sdns Require Export Common.Base Gen.C15 C15.Model C15.Concrete C15.Layouts.
+From Sdns Require Export Common.Base Gen.C15 C15.Model C15.Concrete C15.Layouts C15.Cache.
 Open Scope N_scope.
 
 (* compact forms the drivers print; package paths are given once per case *)
@@ -55,6 +55,12 @@ Inductive case :=
      (handled, declined, or abandoned part-way), then the message under test: handled?, library
      packs?, TryPack's bytes, the library's bytes *)
 | CaseHistory (hist : list cmsg) (m : cmsg) (handled lib_ok : bool) (got want : list N)
+  (* cache.NewCacheEntryWithKey on a concrete reply: ids of the objects whose Go type is RRSIG / NSEC /
+     NSEC3; the library's Pack of the driver's own storable view (0 ok / 1 error / 2 panic, bytes);
+     entry stored?, its bytes; the DO=0 body when the entry keeps one, with the library's Pack of
+     the driver's own stripped view *)
+| CaseCacheEntry (m : cmsg) (dnssec : list N) (lib : N) (want : list N) (stored : bool) (wire : list N)
+                 (stripped : option (list N * list N))
 with crec := R (nm : list N) (k : rkind) (ptr ty cls ttl rdlen : N) (steps : body)
 with cmsg := CM (h : mhdr) (compress : bool) (qs : list (list N * N * N)) (an ns ex : list crec).
 
@@ -178,7 +184,34 @@ Definition check_case (c : case) : bool :=
       | LOk b => lib_ok && bytes_eqb b want
       | _ => negb lib_ok
       end
+  | CaseCacheEntry cm dn lib want stored wire stripped =>
+      let m := msg_of_cm cm in
+      let r := cache_entry_c dirty_state m in
+      match fst r with
+      | LOk b => stored && bytes_eqb b wire
+      | _ => negb stored
+      end &&
+      match fst (lib_pack_c (storable_view name body m)) with
+      | LOk b => (lib =? 0) && bytes_eqb b want
+      | LErr => lib =? 1
+      | LPanic => lib =? 2
+      end &&
+      match stripped with
+      | None => true
+      | Some (got2, want2) =>
+          match fst (cache_stripped_c (is_dnssec_obj dn) (snd r) m) with
+          | LOk b => bytes_eqb b got2
+          | _ => false
+          end &&
+          match fst (lib_pack_c (stripped_view name body (is_dnssec_obj dn) m)) with
+          | LOk b => bytes_eqb b want2
+          | _ => false
+          end
+      end
   end.
+
+Definition crec_kind (r : crec) : rkind := match r with R _ k _ _ _ _ _ _ => k end.
+Definition crec_ptr (r : crec) : N := match r with R _ _ p _ _ _ _ _ => p end.
 
 (* ---- the specification, stated without the model's control flow ---- *)
 
@@ -242,4 +275,30 @@ Definition spec_case (c : case) : bool :=
   | CaseHistory hist cm handled lib_ok got want =>
       (* whatever was packed, declined or abandoned before: the bytes are the library's *)
       if handled then lib_ok && bytes_eqb got want else true
+  | CaseCacheEntry cm dn lib want stored wire stripped =>
+      (* an entry is kept exactly when the library packs the storable view, and it keeps the
+         library's bytes; the section counts in them are the reply's, the additional section
+         without its OPT objects; a DO=0 body is the library's too, and carries none of the
+         DNSSEC objects unless the question asks for signatures *)
+      match cm with
+      | CM h compress qs an ns ex =>
+          Bool.eqb stored (lib =? 0) &&
+          (if stored
+           then bytes_eqb wire want &&
+                (u16_at wire 4 =? count16 qs) && (u16_at wire 6 =? count16 an) &&
+                (u16_at wire 8 =? count16 ns) &&
+                (u16_at wire 10 =? count16 (filter (fun r => negb (kind_is_opt (crec_kind r))) ex))
+           else true) &&
+          match stripped with
+          | None => true
+          | Some (got2, want2) =>
+              stored && bytes_eqb got2 want2 &&
+              let keep l := match qs with
+                            | (_, 46, _) :: _ => l
+                            | _ => filter (fun r => negb (existsb (fun p => p =? crec_ptr r) dn)) l
+                            end in
+              (u16_at got2 6 =? count16 (keep an)) && (u16_at got2 8 =? count16 (keep ns)) &&
+              (u16_at got2 10 =? u16_at wire 10)
+          end
+      end
   end.
